@@ -2,6 +2,7 @@
 #![allow(unused_imports)]
 use vstd::prelude::*;
 use vstd::std_specs::cmp::*;
+use vstd::std_specs::hash::EntrySpecFns;
 use std::collections::{HashMap, HashSet};
 use std::sync::Arc;
 use std::hash::Hash;
@@ -12,6 +13,7 @@ verus! {
 broadcast use {f64ax::group_f64_axioms, dispax::axiom_display_total, cloneax::axiom_clone_eq};
 //@ include types.rs
 //@ include graph_spec.rs
+//@ include adjvec.rs
 
 impl<T, A> Node<T, A>
 where
@@ -204,9 +206,17 @@ for node_name in it: node_names
         final(self).specs == old(self).specs,
         final(self).successors@ == old(self).successors@,
         final(self).predecessors@ == old(self).predecessors@,
+        // [C01.add_node.wf_estore_preserved]
+        old(self).wf_estore() ==> final(self).wf_estore(),
         // [C03.add_node.traversal_rows_frame]
         old(self).nodes_map@.contains_key(node.name) ==> final(self).successors_vec@ == old(self).successors_vec@ && final(self).predecessors_vec@ == old(self).predecessors_vec@,
         !old(self).nodes_map@.contains_key(node.name) ==> rows_extended(old(self).successors_vec@, final(self).successors_vec@) && rows_extended(old(self).predecessors_vec@, final(self).predecessors_vec@),
+//@ tail
+        proof {
+            if old(self).wf_estore() {
+                lemma_estore_frame(*old(self), *self);
+            }
+        }
 //@ end
 
 //@ extract fn src/graph/query.rs get_edge_by_indexes props=C02,C20 ty=Graph
@@ -287,6 +297,48 @@ for node_name in it: node_names
                     && forall|k: int| 0 <= k < r.unwrap()@.len() ==> **(#[trigger] r.unwrap()@[k]) == *self.pair_list(c.0, c.1)[k]
             &&& !self.has_pair(c.0, c.1) ==> is_err_kind(r, ErrorKind::EdgeNotFound)
         }),
+//@ end
+
+//@ extract fn src/graph/creation.rs add_edge props=C01,C02,C03,C20 ty=Graph
+//@ rewrite
+-> Result<(), Error>
+//@ with
+-> (r: Result<(), Error>)
+//@ spec
+    requires
+        old(self).wf_nodes(),
+        old(self).wf_estore(),
+    ensures
+        // [C01.add_edge.outcome]
+        old(self).self_loop_refused(*edge) && old(self).specs.self_loops_false_strategy == SelfLoopsFalseStrategy::Error ==> is_err_kind(r, ErrorKind::SelfLoopsFound),
+        old(self).self_loop_refused(*edge) && old(self).specs.self_loops_false_strategy == SelfLoopsFalseStrategy::Drop ==> r.is_ok(),
+        !old(self).self_loop_refused(*edge) && old(self).missing_refused(*edge) ==> is_err_kind(r, ErrorKind::NodeNotFound),
+        !old(self).self_loop_refused(*edge) && !old(self).missing_refused(*edge) && old(self).duplicate_refused(*edge) ==> is_err_kind(r, ErrorKind::DuplicateEdge),
+        !old(self).self_loop_refused(*edge) && !old(self).missing_refused(*edge) && !old(self).duplicate_refused(*edge) ==> r.is_ok(),
+        // [C01.add_edge.error_is_noop]
+        r.is_err() ==> *final(self) == *old(self),
+        // [C01.add_edge.drop_is_noop]
+        old(self).self_loop_refused(*edge) ==> *final(self) == *old(self),
+        // [C01.add_edge.ignored_duplicate_is_noop]
+        !old(self).self_loop_refused(*edge) && !old(self).missing_refused(*edge) && old(self).duplicate_ignored(*edge) ==> *final(self) == *old(self),
+//@ after let edge_already_exists = self.get_edge_by_indexes(u_node_index, v_node_index).is_ok();
+        let ghost g1 = *self;
+        proof {
+            // a pair one of whose nodes was just created cannot be in the store: keys are < n by wf_estore
+            let c = g1.canon(u_node_index, v_node_index);
+            if edge_already_exists {
+                assert(g1.has_pair(c.0, c.1));
+                assert(old(self).has_pair(c.0, c.1));
+                assert(c.0 < old(self).n() && c.1 < old(self).n());
+                assert(old(self).knows(edge.u) && old(self).knows(edge.v));
+            }
+            assert(edge_already_exists == old(self).existed(*edge));
+            assert(edge_already_exists ==> *self == *old(self));
+        }
+//@ before match self.specs.multi_edges {
+        proof {
+            lemma_estore_frame(g1, *self);
+        }
 //@ end
 
 //@ extract fn src/graph/query.rs get_node_by_index props=C02,C20 ty=Graph
